@@ -100,7 +100,8 @@ async def request(
                 errors.APIForbiddenError, errors.APITooManyRequestsError) as e:
 
             # If we are asked to retry later, do so, and obey the requested backoff.
-            if isinstance(e, errors.APITooManyRequestsError):
+            # Usually, it comes with HTTP 429, but HTTP 503 (and other 5xx) can have it too.
+            if isinstance(e, errors.APIError):
                 if e.headers and e.headers.get("Retry-After"):
                     retry_after = int(float(e.headers["Retry-After"]))  # the new style
                 elif e.details and e.details.get("retryAfterSeconds"):
